@@ -36,9 +36,36 @@ def classify(stmts):
     return out
 
 
+def sequence_options(repo):
+    """{base name: option text} of the per-ledger sequences, from the ledger setup scripts (create sequence "<bucket>"."<base>_<id>" <options> owned by ...)"""
+    import os
+    src = open(os.path.join(repo, "internal/storage/bucket/default_bucket.go")).read()
+    out = {}
+    for m in re.finditer(r'create\s+sequence\s+(?:if\s+not\s+exists\s+)?"\{\{\.Bucket\}\}"\."(\w+?)_\{\{\.ID\}\}"([^;]*);', src, re.I):
+        out[m.group(1)] = " ".join(m.group(2).split()).lower()
+    return out
+
+
+def in_call_order(opts):
+    """nextval hands out values in the real-time order of the calls iff the sequence ascends, does not cycle and keeps no
+    per-session cache (CACHE 1, the default): with CACHE n every session pre-allocates n values and serves them later"""
+    if opts is None:
+        return None
+    if re.search(r"(?<!no )\bcycle\b", opts):
+        return False
+    m = re.search(r"\bincrement(?:\s+by)?\s+(-?\d+)", opts)
+    if m and int(m.group(1)) <= 0:
+        return False
+    m = re.search(r"\bcache\s+(\d+)", opts)
+    if m and int(m.group(1)) > 1:
+        return False
+    return True
+
+
 def run(repo, tier, out):
     W = 2 if tier == "quick" else 3
     recs = capture_sql(repo)
+    seqopts = sequence_options(repo)
     hs = []
     for feat in ("default", "HASH_LOGS=DISABLED"):
         h = Harness("C16_ids_" + feat.replace("=", "_"))
@@ -83,11 +110,20 @@ def run(repo, tier, out):
             if evs1[k][0] == "nextval":
                 for i in range(W):
                     ids[(i, k)] = z3.Int(f"w{i}.id.{evs1[k][1]}")
+                base = re.sub(r"_\d+$", "", evs1[k][2].split(".")[-1].strip('"'))
+                ordered = in_call_order(seqopts.get(base))
+                if ordered is None:
+                    h.inconclusive.append(f"no CREATE SEQUENCE found for {evs1[k][2]} in the ledger setup scripts")
+                h.encoded.append(f"sequence {base}: options [{seqopts.get(base)}] -> values in call order: {ordered}")
                 for i in range(W):
                     for j in range(W):
                         if i != j:
-                            # one sequence: values follow the real-time order of the calls
-                            cons.append(z3.Implies(res(i, k) == res(j, k), (ids[(i, k)] < ids[(j, k)]) == (t[i][k] < t[j][k])))
+                            if ordered:
+                                # one sequence: values follow the real-time order of the calls
+                                cons.append(z3.Implies(res(i, k) == res(j, k), (ids[(i, k)] < ids[(j, k)]) == (t[i][k] < t[j][k])))
+                            else:
+                                # cached / descending / cycling sequence: sessions serve pre-allocated values, only distinctness is left
+                                cons.append(z3.Implies(res(i, k) == res(j, k), ids[(i, k)] != ids[(j, k)]))
             if evs1[k][0] == "lock" and evs1[k][1] == "blocking":
                 for i in range(W):
                     for j in range(W):
